@@ -12,17 +12,19 @@ structure PCall where
   k : Nat
   s : Nat
   cacheable : Bool
+  /-- does the re-check accept a hit -/
+  acc : Bool
   id : Nat
 
 def pMemo : Memo PCall Nat Nat :=
-  { key := fun c => c.k, skey := fun c => c.s, compute := fun c => c.id, accept := fun _ _ => true,
+  { key := fun c => c.k, skey := fun c => c.s, compute := fun c => c.id, accept := fun c _ => c.acc,
     cacheable := fun c => c.cacheable, popOnReject := fun _ _ => false }
 
 def parsePOps (l : List Json) : Except String (List (Op PCall Nat)) :=
   (l.zipIdx).mapM fun (j, idx) => do
     let t ← argStr j "t"
     match t with
-    | "call" => pure (.call ⟨← argNat j "k", ← argNat j "s", ← argBool j "cacheable", idx⟩)
+    | "call" => pure (.call ⟨← argNat j "k", ← argNat j "s", ← argBool j "cacheable", (j.getObjValAs? Bool "acc").toOption.getD true, idx⟩)
     | "clear" => pure .clear
     | "pop" => pure (.pop (← argNat j "k"))
     | _ => throw s!"memo op {t}"
